@@ -34,6 +34,8 @@ def _find_struct(toks, name):
                     adepth += 1
                 elif toks[j][1] == ">":
                     adepth -= 1
+                elif toks[j][1] == ">>":
+                    adepth -= 2
                 elif toks[j][1] == ";" and adepth == 0:
                     raise LedgerGenError("struct %s has no body" % name)
                 j += 1
@@ -70,6 +72,8 @@ def _find_struct(toks, name):
                         depth += 1
                     elif toks[j][1] in (">", ")", "]"):
                         depth -= 1
+                    elif toks[j][1] == ">>":
+                        depth -= 2
                     ty.append(toks[j][1])
                     j += 1
                 fields.append((fname, ty))
@@ -95,6 +99,8 @@ def _enum_variants(toks, name):
                     depth += 1
                 elif t in (")", "}", ">", "]"):
                     depth -= 1
+                elif t == ">>":
+                    depth -= 2
                 elif depth == 0 and t == ",":
                     expect = True
                 elif depth == 0 and expect and toks[j][0] == "id":
